@@ -63,6 +63,9 @@ pub struct CaseOut {
     pub extra_fps: Vec<u64>,
     /// Invocations of the real binary whose behaviour agreed with the reference model.
     pub validated: u64,
+    /// Number of further distinct non-trivial inputs inside an enumerated unit (an enumeration never repeats an
+    /// input, so they are distinct by construction and need no fingerprints).
+    pub extra_distinct: u64,
 }
 
 #[derive(Clone, Debug)]
@@ -178,6 +181,8 @@ pub struct WorkerResult {
     pub excluded_known: u64,
     #[serde(default)]
     pub validated: u64,
+    #[serde(default)]
+    pub extra_distinct: u64,
     pub known_hits: BTreeMap<String, u64>,
     pub other_property_viols: BTreeMap<String, u64>,
     /// (part, key, msg, replay value)
@@ -209,6 +214,7 @@ impl<'a> Acc<'a> {
         self.res.cases += 1;
         self.res.excluded_known += out.excluded_known;
         self.res.validated += out.validated;
+        self.res.extra_distinct += out.extra_distinct;
         if out.nontrivial {
             self.fps.insert(out.fp);
         }
@@ -531,6 +537,7 @@ pub fn orchestrate(check: &mut dyn Check, tier: Tier, seed: u64) -> i32 {
                 merged.cases += wr.cases;
                 merged.excluded_known += wr.excluded_known;
                 merged.validated += wr.validated;
+                merged.extra_distinct += wr.extra_distinct;
                 fps.extend(wr.nontrivial_fps);
                 for (k, v) in wr.classes {
                     *merged.classes.entry(k).or_default() += v;
@@ -643,7 +650,7 @@ pub fn orchestrate(check: &mut dyn Check, tier: Tier, seed: u64) -> i32 {
     let mut coverage = serde_json::Map::new();
     coverage.insert("evaluations".into(), json!(merged.evaluations));
     coverage.insert("cases".into(), json!(merged.cases));
-    coverage.insert("distinct_nontrivial".into(), json!(fps.len()));
+    coverage.insert("distinct_nontrivial".into(), json!(fps.len() as u64 + merged.extra_distinct));
     coverage.insert("rule".into(), json!(check.rule()));
     coverage.insert("samples".into(), json!(merged.samples));
     coverage.insert("classes".into(), json!(merged.classes));
@@ -691,7 +698,7 @@ pub fn orchestrate(check: &mut dyn Check, tier: Tier, seed: u64) -> i32 {
         tier.name(),
         merged.cases,
         merged.evaluations,
-        fps.len(),
+        fps.len() as u64 + merged.extra_distinct,
         violations.len(),
         wall
     );
